@@ -323,11 +323,12 @@ def np_argmax(ex, args, kwargs, node):
     ex.assume(z3.ForAll([f], z3.Implies(z3.And(f >= 0, f < to_z3(n, "int")), z3.And(rf >= 0, z3.Or(rf < wz, z3.And(wz == 0, rf == 0)))),
                         patterns=[rf]))
     # every position before the result is False; the result position is True unless the row has no True at all
-    ex.assume(z3.ForAll([f, j], z3.Implies(z3.And(f >= 0, f < to_z3(n, "int"), j >= 0, j < rf), z3.Not(a.sel(f, j))),
-                        patterns=[z3.MultiPattern(rf, a.sel(f, j))]))
+    cell = z3.simplify(a.sel(f, j))
+    pp = [p for p in pick_patterns(cell, j) if z3.is_app(p)]
+    kw = {"patterns": [z3.MultiPattern(rf, pp[0])]} if pp else {}
+    ex.assume(z3.ForAll([f, j], z3.Implies(z3.And(f >= 0, f < to_z3(n, "int"), j >= 0, j < rf), z3.Not(a.sel(f, j))), **kw))
     ex.assume(z3.ForAll([f, j], z3.Implies(z3.And(f >= 0, f < to_z3(n, "int"), j >= 0, j < wz, a.sel(f, j)),
-                                           z3.And(a.sel(f, rf), rf <= j)),
-                        patterns=[z3.MultiPattern(rf, a.sel(f, j))]))
+                                           z3.And(a.sel(f, rf), rf <= j)), **kw))
     return r
 
 
@@ -438,3 +439,90 @@ def sp_dtype_is(ex, args, kwargs, node):
 def sp_owner_is(ex, args, kwargs, node):
     a, name = args
     return (getattr(a, "ghost", {}) or {}).get("owner") == name
+
+
+# ---------------------------------------------------------------------------------------------- np.where(mask) / nonzero
+def pick_patterns(expr, var):
+    """smallest select / uninterpreted-function subterms of expr that mention var (usable as E-matching triggers)"""
+    out = []
+    seen = set()
+
+    def mentions(e):
+        stack = [e]
+        while stack:
+            x = stack.pop()
+            if z3.is_var(x):
+                continue
+            if x.get_id() == var.get_id():
+                return True
+            if z3.is_app(x):
+                stack.extend(x.children())
+        return False
+
+    def rec(e):
+        if e.get_id() in seen or not z3.is_app(e):
+            return
+        seen.add(e.get_id())
+        kids = e.children()
+        k = e.decl().kind()
+        good = k in (z3.Z3_OP_SELECT, z3.Z3_OP_UNINTERPRETED) and kids
+        sub = [c for c in kids if mentions(c)]
+        if good and sub and all(c.get_id() == var.get_id() or not z3.is_app(c) or not c.children() for c in sub):
+            out.append(e)
+            return
+        for c in kids:
+            rec(c)
+        if good and mentions(e) and not out:
+            out.append(e)
+    rec(expr)
+    return out
+
+
+@model("__where1__")
+def np_where1(ex, args, kwargs, node):
+    """np.where(mask) for a 1-D mask: a 1-tuple holding the increasing positions where the mask is True"""
+    (mask,) = args
+    if isinstance(mask, Masked) or not isinstance(mask, Arr) or mask.kind != "bool" or mask.rank != 1:
+        raise Unsupported("np.where(cond) of something else than a 1-D boolean array")
+    trusted(ex, "numpy.where(mask)[0]: strictly increasing positions of the True entries, all of them")
+    n = to_z3(mask.shape[0], "int")
+    L = z3.Int(fresh_name("nnz"))
+    idx = Arr.fresh("where", [L], "int", ghost={"owner": "fresh", "corder": True, "dtype": "int64"})
+    wit = z3.Function(fresh_name("wherepos"), V.INT, V.INT)
+    t, t2, e = z3.Int(fresh_name("t")), z3.Int(fresh_name("t")), z3.Int(fresh_name("e"))
+    ex.assume(z3.And(L >= 0, L <= n))
+    ex.assume(z3.ForAll([t], z3.Implies(z3.And(t >= 0, t < L), z3.And(idx.sel(t) >= 0, idx.sel(t) < n, mask.sel(idx.sel(t)))),
+                        patterns=[idx.sel(t)]))
+    ex.assume(z3.ForAll([t, t2], z3.Implies(z3.And(t >= 0, t < t2, t2 < L), idx.sel(t) < idx.sel(t2)),
+                        patterns=[z3.MultiPattern(idx.sel(t), idx.sel(t2))]))
+    body = mask.sel(e)
+    pats = pick_patterns(z3.simplify(body), e) or None
+    comp = z3.Implies(z3.And(e >= 0, e < n, body), z3.And(wit(e) >= 0, wit(e) < L, idx.sel(wit(e)) == e))
+    ex.assume(z3.ForAll([e], comp, patterns=[wit(e)] + ([p for p in pats] if pats else [])) if pats else z3.ForAll([e], comp, patterns=[wit(e)]))
+    return (idx,)
+
+
+MODELS["numpy.nonzero"] = np_where1
+
+
+@model("numpy.pad")
+def np_pad(ex, args, kwargs, node):
+    """np.pad(a, ((0, 0), (0, k)), constant_values=c) on a 2-D array: k extra columns holding c.  The result keeps the memory
+    layout of its input (so it is C-contiguous only if the input is known to be)."""
+    a = args[0]
+    width = kwargs.get("pad_width", args[1] if len(args) > 1 else None)
+    cv = kwargs.get("constant_values", 0)
+    if not (isinstance(a, Arr) and a.rank == 2 and isinstance(width, (tuple, list)) and len(width) == 2):
+        raise Unsupported("np.pad other than 2-D with explicit widths")
+    (r0, r1), (c0, c1) = [tuple(w) for w in width]
+    if (r0, r1, c0) != (0, 0, 0) or not isinstance(c1, int):
+        raise Unsupported("np.pad widths other than ((0, 0), (0, k))")
+    trusted(ex, "numpy.pad(constant): appended columns hold the constant; layout follows the input")
+    n, w = a.shape
+    wz = to_z3(w, "int")
+    r = Arr.from_lambda([n, arith("+", w, c1)], a.kind, lambda f, j: z3.If(j < wz, a.sel(f, j), to_z3(cv, a.kind)))
+    r.ghost = {k: v for k, v in a.ghost.items() if k in ("space", "vspace", "dtype")}
+    r.ghost["owner"] = "fresh"
+    if a.ghost.get("corder") is True:
+        r.ghost["corder"] = True
+    return r
